@@ -1,0 +1,75 @@
+//go:build verif
+
+package verifspec
+
+// Contracts for the single-threaded replacements of sync primitives (package nosync, property C13).  The model is the
+// sequential behaviour of package sync: an operation that sync would complete without waiting has the same effect;
+// an operation on which sync would block (or which sync reports as misuse) panics.  nosync is compiled by GopherJS,
+// so int is 32 bits wide (`word 32`).
+
+//@ func nosync.Mutex.Lock
+//@ property C13
+//@   word 32
+//@   panics_if m.locked
+//@   ensures m.locked
+//@ func nosync.Mutex.Unlock
+//@ property C13
+//@   word 32
+//@   panics_if !m.locked
+//@   ensures !m.locked
+
+//@ func nosync.RWMutex.Lock
+//@ property C13
+//@   word 32
+//@   panics_if rw.readLockCounter != 0 || rw.writeLocked
+//@   ensures rw.writeLocked && rw.readLockCounter == 0
+//@ func nosync.RWMutex.Unlock
+//@ property C13
+//@   word 32
+//@   panics_if !rw.writeLocked
+//@   ensures !rw.writeLocked && rw.readLockCounter == old(rw.readLockCounter)
+//@ func nosync.RWMutex.RLock
+//@ property C13
+//@   word 32
+//@   requires rw.readLockCounter >= 0 && rw.readLockCounter < 2147483647
+//@   panics_if rw.writeLocked
+//@   ensures rw.readLockCounter == old(rw.readLockCounter) + 1 && !rw.writeLocked
+//@ func nosync.RWMutex.RUnlock
+//@ property C13
+//@   word 32
+//@   requires rw.readLockCounter >= 0
+//@   panics_if rw.readLockCounter == 0
+//@   ensures rw.readLockCounter == old(rw.readLockCounter) - 1 && rw.writeLocked == old(rw.writeLocked)
+
+//@ func nosync.WaitGroup.Add
+//@ property C13
+//@   word 32
+//@   requires wg.counter >= 0 && wg.counter + delta <= 2147483647 && wg.counter + delta >= -2147483648
+//@   panics_if wg.counter + delta < 0
+//@   ensures wg.counter == old(wg.counter) + delta
+//@ func nosync.WaitGroup.Done
+//@ property C13
+//@   word 32
+//@   requires wg.counter >= 0
+//@   panics_if wg.counter == 0
+//@   ensures wg.counter == old(wg.counter) - 1
+//@ func nosync.WaitGroup.Wait
+//@ property C13
+//@   word 32
+//@   panics_if wg.counter != 0
+//@   ensures wg.counter == old(wg.counter)
+
+// Once.Do: f runs iff the Once is neither done nor running; afterwards it is done -- also when f panics (sync.Once
+// considers a panicking f to have returned); re-entry from f panics instead of dead-locking.
+//@ func nosync.Once.Do
+//@ property C13
+//@   word 32
+//@   ghost called = false
+//@   oncall f: ghost called = true
+//@   oncall f: assert !old(o.done) && !old(o.doing) && o.doing
+//@   oncall f: maypanic
+//@   panics_only_if (!o.done && o.doing) || (!o.done && !o.doing)
+//@   ensures old(o.done) ==> !called && o.done && o.doing == old(o.doing)
+//@   ensures !old(o.done) ==> called && o.done && !o.doing
+//@   panic_ensures !old(o.doing) ==> called && o.done && !o.doing
+//@   panic_ensures old(o.doing) ==> !called && !o.done
